@@ -38,7 +38,7 @@ theorem registerTag_inv {path name field st st'} (h : registerTag path name fiel
 
 theorem registerTags_inv {path l st st'} (h : registerTags path l st = .ok st') :
     (st'.nextVid : Nat) = st.nextVid ∧ (st'.nextEid : Nat) = st.nextEid ∧ st'.used = st.used ∧
-    st'.tags = st.tags ++ l.map fun (n, f) => ⟨n, f, path⟩ := by
+    st'.tags = st.tags ++ l.map fun x => (⟨x.1, x.2, path⟩ : TagEntry) := by
   induction l generalizing st with
   | nil => simp [registerTags] at h; subst h; simp
   | cons x rest ih =>
